@@ -24,7 +24,9 @@ SLOW = "slow"
 STAG_BEHS = [SLOW, "silent", "ok", "dup", "sendfail"]
 TICK_MS = TO_MS // 2   # one logical tick of the generator (TO = 2 ticks) in driver time
 CROSS_BEHS = ["ok", "silent", "dup", "crossid", "sendfail"]
-INVS = "TypeOK AtMostOnce Completion OwnAnswer NoCrossTalk PendingAwaits AwaitingPending Bounded TimeoutNotEarly"
+INVS = "TypeOK AtMostOnce Completion OwnAnswer NoCrossTalk PendingAwaits AwaitingPending PromptSend Bounded TimeoutNotEarly"
+TO_MANY_MS = 1000    # ResponseTimeout of the many-target runs (= the slack of "handed the command promptly")
+MANY = ["n%d" % i for i in range(1, 101)]
 
 
 def tla_set(xs):
@@ -82,6 +84,7 @@ CONSTANTS
   ForeignId = "cx"
   Mutant = "none"
   Slack = %d
+  PromptMin = 1000
 INVARIANT PrintEnd
 CHECK_DEADLOCK FALSE
 """ % (tla_set(ALL_BEHS + [SLOW]), TO_MS, SLACK_MS)
@@ -173,7 +176,7 @@ MC_EnqOrders == {}
 ASSUME PrintT(<<"TAB", [x \\in Cmds \\X Targets \\X Behs |-> Emits(x[1], x[2], x[3])]>>)
 ====
 """ % name
-    cfg = "SPECIFICATION Spec\n" + cfg_common(["c1", "c2"], ["t1", "t2", "t3"], ["q1", "q2"], ALL_BEHS + [SLOW], 2)
+    cfg = "SPECIFICATION Spec\n" + cfg_common(["c1", "c2"], ["t1", "t2", "t3"] + MANY, ["q1", "q2"], ALL_BEHS + [SLOW], 2)
     r = ctx.tlc(name, None, workers=1, cfg_text=cfg, files={name + ".tla": mod}, timeout=120)
     recs = r.records("TAB")
     if not recs:
@@ -228,6 +231,22 @@ def free_scenario(sid, rng, tab):
             "hold_us": hold}
 
 
+def many_scenario(sid, rng, tab, n, k):
+    """One command with n targets (ids are data), k of them silent, the rest answer; nothing ordered (free mode)."""
+    ts = MANY[:n]
+    silent = set(rng.sample(ts, k))
+    behv, msgs, delay = {}, {}, {}
+    for t in ts:
+        b = "silent" if t in silent else "ok"
+        behv["c1/" + t] = b
+        msgs["c1/" + t] = tab[("c1", t, b)]
+        for m in msgs["c1/" + t]:
+            delay[msg_key(m)] = rng.choice([1, 1, 200, 3000, 20000])
+    return {"id": sid, "mode": "free", "to_ms": TO_MANY_MS, "tg": {"c1": ts, "c2": []}, "qof": {"c1": "q1", "c2": "q1"},
+            "beh": behv, "msgs": msgs, "gated": [], "steps": [], "order": ["c1"], "enq_us": {"c1": 0}, "delay_us": delay,
+            "hold_us": {}, "many": [n, k]}
+
+
 def vector_of(s):
     return json.dumps([s["tg"], s["qof"], s["beh"]], sort_keys=True)
 
@@ -267,7 +286,6 @@ def run(ctx):
     X_BEHS = ["ok", "silent", "dup", "crossid"]
     if quick:
         runs = [("1 cmd x 3 targets, 6 behaviours", ["c1"], ["t1", "t2", "t3"], ["q1"], Q_BEHS, T3, Q1, "{}"),
-                ("1 cmd x 2 targets, all behaviours incl. slow send", ["c1"], ["t1", "t2"], ["q1"], MODEL_BEHS + [SLOW], T2, Q1, "{}"),
                 ("1 cmd x 3 targets, staggered deadlines (slow send)", ["c1"], ["t1", "t2", "t3"], ["q1"],
                  ["ok", "silent", SLOW, "sendfail"], T3, Q1, "{}"),
                 ("2 cmds x 2 targets, one queue, cross-command behaviours", ["c1", "c2"], ["t1", "t2"], ["q1"], ["ok", "silent", "crossid"],
@@ -286,13 +304,14 @@ def run(ctx):
         if r.violated or r.deadlock:
             preds.append((label, r))
     # liveness half of "exactly once" (fair implementation + time): small configuration
-    r = model(ctx, "liveness: 1 cmd x 2 targets", ["c1"], ["t1", "t2"], ["q1"], (MODEL_BEHS if not quick else X_BEHS + ["sendfail"]) + [SLOW],
+    r = model(ctx, "1 cmd x 2 targets, all behaviours incl. slow send: invariants + liveness", ["c1"], ["t1", "t2"], ["q1"], MODEL_BEHS + [SLOW],
               T2, Q1, "{}", live=True, workers=workers)
     if r.violated:
         preds.append(("liveness", r))
     # the invariants have teeth: broken variants of the code are rejected by the model
-    muts = (("idonly", "NoCrossTalk"), ("cmdwide", "AwaitingPending"), ("tgtonly", "NoCrossTalk"), ("nounreg", "PendingAwaits"))
-    for mut, expect in (muts[:2] if quick else muts):
+    muts = (("idonly", "NoCrossTalk"), ("cmdwide", "AwaitingPending"), ("inflight", "PromptSend"), ("tgtonly", "NoCrossTalk"),
+            ("nounreg", "PendingAwaits"))
+    for mut, expect in (muts[1:3] if quick else muts):
         r = model(ctx, "mutant %s (must be rejected)" % mut, ["c1", "c2"], ["t1", "t2"], ["q1"], CROSS_BEHS + [SLOW], T2, Q1, ORD,
                   mutant=mut, workers=2)
         if not r.violated:
@@ -316,8 +335,8 @@ def run(ctx):
     TWO = "{f \\in [Cmds -> SUBSET Targets] : Cardinality(f[\"c1\"]) >= 2}"
     gens = [
         # (cmds, targets, queues, shapes, queue maps, behaviours, staggered deadlines, number of behaviours, depth)
-        (["c1"], ["t1", "t2", "t3"], ["q1"], ONE, "[Cmds -> Queues]", ALL_BEHS, "off", 450 if quick else 4000, 60),
-        (["c1", "c2"], ["t1", "t2"], ["q1", "q2"], "[Cmds -> SUBSET Targets]", "[Cmds -> Queues]", ALL_BEHS, "off", 600 if quick else 5500, 90),
+        (["c1"], ["t1", "t2", "t3"], ["q1"], ONE, "[Cmds -> Queues]", ALL_BEHS, "off", 400 if quick else 4000, 60),
+        (["c1", "c2"], ["t1", "t2"], ["q1", "q2"], "[Cmds -> SUBSET Targets]", "[Cmds -> Queues]", ALL_BEHS, "off", 500 if quick else 5500, 90),
         # staggered deadlines: one command, >= 2 targets, the SendFunc of some target slow (its response window starts and
         # ends later than its siblings'); replies placed by the clock; "gap": after a sibling's timeout, inside the own window
         (["c1"], ["t1", "t2", "t3"], ["q1"], TWO, "[Cmds -> Queues]", STAG_BEHS, "gap", 200 if quick else 1200, 70),
@@ -349,6 +368,12 @@ def run(ctx):
     for i in range(nfree):
         sid += 1
         scenarios.append(free_scenario(sid, rng, tab))
+    # many targets (beyond any small constant), many of them silent: every target must be handed the command promptly
+    many = [(33, 33), (40, 34), (64, 48), (100, 70)] if quick else \
+        [(33, 33), (33, 5), (40, 34), (48, 48), (64, 40), (64, 64), (100, 60), (100, 100), (100, 35), (70, 33)]
+    for (n, k) in many:
+        sid += 1
+        scenarios.append(many_scenario(sid, rng, tab, n, k))
     execute(ctx, scenarios)
 
 
@@ -410,7 +435,8 @@ def execute(ctx, scenarios):
         seen_v.add((inv, scn))
         s = by_id.get(scn, {})
         ctx.add_violation({"inv": inv, "scn": scn, "line": line, "mode": s.get("mode"), "tg": s.get("tg"), "qof": s.get("qof"),
-                           "beh": s.get("beh"), "detail": v[4] if len(v) > 4 else None},
+                           "beh": s.get("beh") if not s.get("many") else None, "many": s.get("many"),
+                           "detail": v[4] if len(v) > 4 else None},
                           replay_obj={"scenario": s, "trace": by_scn.get(scn, [])})
     # observation (not part of the property): ProcessResponse goroutines that never return
     leaked = 0
